@@ -304,8 +304,13 @@ class AbstractFormat:
         # two like-sign corners give the maximum and the two cross corners the
         # minimum -- `max` on the latter would claim the *tighter* of the two
         # and miss the product it names: `[-1,1] * [-2,1]` reaches -2
-        pos_bound = max(self.pos_bound * other.pos_bound, self.neg_bound * other.neg_bound)
-        neg_bound = min(self.pos_bound * other.neg_bound, self.neg_bound * other.pos_bound)
+        def corner(a: RealFloat | float, b: RealFloat | float):
+            # a bound of zero times an unbounded one is zero, not the NaN
+            # of `0 * inf`: no member lies past a bound of zero
+            return b if b == 0 else a if a == 0 else a * b
+
+        pos_bound = max(corner(self.pos_bound, other.pos_bound), corner(self.neg_bound, other.neg_bound))
+        neg_bound = min(corner(self.pos_bound, other.neg_bound), corner(self.neg_bound, other.pos_bound))
 
         # special values: 0 is representable everywhere, so `inf * 0 = NaN` is
         # reachable whenever either operand has an infinity -- the NaN result is
